@@ -271,12 +271,14 @@ impl SampledFunction {
                 match self.order {
                     Interpolation::Linear => {
                         let (i, _, s) = self.input[0].map(x[0]);
-                        let idx = i * n_out;
+                        let idx = try_opt!(i.checked_mul(n_out));
+                        let lower = try_opt!(self.data.get(idx..));
+                        let upper = idx.checked_add(n_out).and_then(|j| self.data.get(j..)).unwrap_or(&[]);
 
-                        for (o, &a) in out.iter_mut().zip(&self.data[idx..]) {
+                        for (o, &a) in out.iter_mut().zip(lower) {
                             *o = a as f32 * (1. - s);
                         }
-                        for (o, &b) in out.iter_mut().zip(&self.data[idx + n_out..]) {
+                        for (o, &b) in out.iter_mut().zip(upper) {
                             *o += b as f32 * s;
                         }
                     }
@@ -287,14 +289,14 @@ impl SampledFunction {
                 Interpolation::Linear => {
                     let (i0, s0, f0) = self.input[0].map(x[0]);
                     let (i1,  _, f1) = self.input[1].map(x[1]);
-                    let (j0, j1) = (i0+1, i1+1);
+                    let (j0, j1) = (i0.saturating_add(1), i1.saturating_add(1));
                     let (g0, g1) = (1. - f0, 1. - f1);
                     
                     out.fill(0.0);
-                    let mut add = |i0, i1, f| {
-                        let idx = (i0 + s0 * i1) * n_out;
-                        
-                        if let Some(part) = self.data.get(idx .. idx+n_out) {
+                    let mut add = |i0: usize, i1: usize, f| {
+                        let idx = s0.checked_mul(i1).and_then(|v| v.checked_add(i0)).and_then(|v| v.checked_mul(n_out));
+                        let part = idx.and_then(|idx| idx.checked_add(n_out).and_then(|end| self.data.get(idx .. end)));
+                        if let Some(part) = part {
                             for (o, &b) in out.iter_mut().zip(part) {
                                 *o += f * b as f32;
                             }
@@ -313,14 +315,15 @@ impl SampledFunction {
                     let (i0, s0, f0) = self.input[0].map(x[0]);
                     let (i1, s1, f1) = self.input[1].map(x[1]);
                     let (i2,  _, f2) = self.input[2].map(x[2]);
-                    let (j0, j1, j2) = (i0+1, i1+1, i2+1);
+                    let (j0, j1, j2) = (i0.saturating_add(1), i1.saturating_add(1), i2.saturating_add(1));
                     let (g0, g1, g2) = (1. - f0, 1. - f1, 1. - f2);
                     
                     out.fill(0.0);
-                    let mut add = |i0, i1, i2, f| {
-                        let idx = (i0 + s0 * (i1 + s1 * i2)) * n_out;
-                        
-                        if let Some(part) = self.data.get(idx .. idx+n_out) {
+                    let mut add = |i0: usize, i1: usize, i2: usize, f| {
+                        let idx = s1.checked_mul(i2).and_then(|v| v.checked_add(i1)).and_then(|v| v.checked_mul(s0))
+                            .and_then(|v| v.checked_add(i0)).and_then(|v| v.checked_mul(n_out));
+                        let part = idx.and_then(|idx| idx.checked_add(n_out).and_then(|end| self.data.get(idx .. end)));
+                        if let Some(part) = part {
                             for (o, &b) in out.iter_mut().zip(part) {
                                 *o += f * b as f32;
                             }
